@@ -9,7 +9,12 @@ import (
 
 type Value interface{}
 
-type FloatVal struct{ F float64 }
+// FloatVal: a concrete float64, or (I != nil) the exact float64 image of a symbolic 64-bit integer — enough for code that
+// carries counts through float64 fields (Sample.Value) and converts them back; arithmetic on such a value is unsupported.
+type FloatVal struct {
+	F float64
+	I *Term
+}
 type StructVal struct{ Fields []Value }
 type ArrayVal struct{ Elems []Value }
 type PtrVal struct {
@@ -163,7 +168,7 @@ func zeroValue(t types.Type) Value {
 	case *types.Signature:
 		return FuncVal{}
 	case *types.Chan:
-		return ChanVal{}
+		return PtrVal{} // a channel is a reference to its heap object (intr_chan.go); nil channel = nil reference
 	case *types.Tuple:
 		v := make([]Value, u.Len())
 		for i := range v {
